@@ -6,7 +6,8 @@
 
 extern int mpt_qpush(MPT_STRUCT(queue) *queue, size_t len, const void *data)
 {
-	int ret;
+	ssize_t ret;
+	/* remaining element count may exceed int range */
 	if ((ret = mpt_qpost(queue, len)) < 0) {
 		return ret;
 	}
